@@ -221,8 +221,9 @@ impl FAttr {
     pub fn ignore(&self) -> bool {
         self.params.iter().any(|(p, _)| matches!(p, FParam::Ignore(true)))
     }
+    /// base name of the custom method (the path may be decorated: `crate::prelude::m_eq_le::<u8>`)
     pub fn method(&self) -> Option<&str> {
-        self.params.iter().find_map(|(p, _)| if let FParam::Method(m) = p { Some(m.as_str()) } else { None })
+        self.params.iter().find_map(|(p, _)| if let FParam::Method(m) = p { Some(method_base(m)) } else { None })
     }
     pub fn name(&self) -> Option<&str> {
         self.params.iter().find_map(|(p, _)| if let FParam::Name(m) = p { Some(m.as_str()) } else { None })
@@ -268,6 +269,8 @@ pub struct Generics {
     /// (name, type, default, instantiation)
     pub consts: Vec<ConstParam>,
     pub where_preds: Vec<String>,
+    /// declare the const parameters before the type parameters (legal since Rust 1.59)
+    pub consts_first: bool,
 }
 
 #[derive(Clone, Debug, PartialEq, Eq, Hash)]
@@ -299,6 +302,7 @@ impl Generics {
         for (n, b) in &self.lifetimes {
             v.push(if b.is_empty() { format!("'{n}") } else { format!("'{n}: {}", b.join(" + ")) });
         }
+        let mut tys = Vec::new();
         for t in &self.types {
             let mut s = t.name.clone();
             if !t.bounds.is_empty() {
@@ -307,14 +311,22 @@ impl Generics {
             if let Some(d) = &t.default {
                 write!(s, " = {d}").unwrap();
             }
-            v.push(s);
+            tys.push(s);
         }
+        let mut cs = Vec::new();
         for c in &self.consts {
             let mut s = format!("const {}: {}", c.name, c.ty);
             if let Some(d) = &c.default {
                 write!(s, " = {d}").unwrap();
             }
-            v.push(s);
+            cs.push(s);
+        }
+        if self.consts_first {
+            v.extend(cs);
+            v.extend(tys);
+        } else {
+            v.extend(tys);
+            v.extend(cs);
         }
         format!("<{}>", v.join(", "))
     }
@@ -338,16 +350,23 @@ impl Generics {
         for (n, _) in &self.lifetimes {
             v.push(format!("'{n}"));
         }
-        for t in &self.types {
-            v.push(t.name.clone());
-        }
-        for c in &self.consts {
-            v.push(c.name.clone());
+        let tys: Vec<String> = self.types.iter().map(|t| t.name.clone()).collect();
+        let cs: Vec<String> = self.consts.iter().map(|c| c.name.clone()).collect();
+        if self.consts_first {
+            v.extend(cs);
+            v.extend(tys);
+        } else {
+            v.extend(tys);
+            v.extend(cs);
         }
         format!("<{}>", v.join(", "))
     }
     /// `<'static, u8, 2>`
     pub fn inst(&self) -> String {
+        self.inst_with(&self.types.iter().map(|t| t.inst.clone()).collect::<Vec<_>>())
+    }
+    /// instantiation with the given arguments for the type parameters
+    pub fn inst_with(&self, type_args: &[String]) -> String {
         if self.is_empty() {
             return String::new();
         }
@@ -355,11 +374,13 @@ impl Generics {
         for _ in &self.lifetimes {
             v.push("'static".to_string());
         }
-        for t in &self.types {
-            v.push(t.inst.clone());
-        }
-        for c in &self.consts {
-            v.push(c.inst.clone());
+        let cs: Vec<String> = self.consts.iter().map(|c| c.inst.clone()).collect();
+        if self.consts_first {
+            v.extend(cs);
+            v.extend(type_args.iter().cloned());
+        } else {
+            v.extend(type_args.iter().cloned());
+            v.extend(cs);
         }
         format!("<{}>", v.join(", "))
     }
@@ -935,6 +956,12 @@ impl FieldSpec {
     pub fn into_attr(&self, ty: &str) -> Option<&FAttr> {
         self.attrs.iter().find(|a| a.tr == Tr::Into && a.into_ty.as_deref() == Some(ty))
     }
+}
+
+/// `crate::prelude::m_eq_le::<u8>` -> `m_eq_le`
+pub fn method_base(m: &str) -> &str {
+    let no_args = m.split("::<").next().unwrap_or(m);
+    no_args.rsplit("::").next().unwrap_or(no_args)
 }
 
 /// stable 64-bit FNV hash of a string (distinctness accounting, replay file names)
